@@ -17,7 +17,7 @@ PROP = {
     ],
 }
 TEXT = {
-    "text": "Coq theorems over all row lists (any number of fields per row, any strconv verdicts), all calibration values and all binary64 readings: the reader never panics and returns the concatenation of the per-row results; a row with a timestamp in [G, G+2^32) yields exactly one record for slot (t-G)/300, earlier/unusable/short rows none; value 3 for unparseable readings, 2 for finite |f| < 24 (strict, over the reals via Bcompare_correct), otherwise trunc((mult*f)/div) mod 2^64 when finite and below 2^63 in magnitude (via Btrunc_correct); calibration file rule. The executable model (Flocq binary64 evaluated by vm_compute) is compared record-for-record with the real staticReadEnergyFile on generated CSV files under calibrations loaded by the real readCTSettingsFile, and with readCTSettingsFile itself.",
+    "text": "Coq theorems over all row lists (any number of fields per row, any strconv verdicts), all calibration values and all binary64 readings: the reader never panics and returns the concatenation of the per-row results; a row with a timestamp in [G, G+2^32) yields exactly one record for slot (t-G)/300, earlier/unusable/short rows none; value 3 for unparseable readings, 2 for finite |f| < 24 (strict, over the reals via Bcompare_correct), otherwise trunc((mult*f)/div) mod 2^64 when finite and below 2^63 in magnitude (via Btrunc_correct); calibration file rule. The executable model (Flocq binary64 evaluated by vm_compute) is compared record-for-record with the real staticReadEnergyFile on generated CSV files under calibrations loaded by the real readCTSettingsFile, and with readCTSettingsFile itself. Added after seeded-change rounds: suite ctdefaults in the production build (absent calibration file gives the build's default multiplier and divider, which differ only there).",
     "note": "D11 (one-field rows indexed record[1]) was reproduced by the energy suite (replay corpus/C16/d11.json) and repaired in /repo; the pre-repair loop body is kept as energy_rows_unchecked with c16_unchecked_panics. Axioms: only the four standard-library real-number axioms listed in trusted_base. CSV splitting and number parsing are Go's (trusted, shared by model input and implementation).",
     "technique": "Coq proof (Flocq IEEE-754 + real analysis lemmas, list induction) + differential correspondence (vm_compute) against the real reader",
 }
